@@ -262,14 +262,14 @@ func (u *Unit) typeInv(v string, t types.Type, ctr string) string {
 			return and(app("<=", "0", arr), app("<=", arr, ctr),
 				app("bvsle", "(_ bv0 64)", app("s_len", v)), app("bvsle", app("s_len", v), app("s_cap", v)),
 				app("bvsle", "(_ bv0 64)", app("s_off", v)),
-				app("bvult", app("s_cap", v), "(_ bv1152921504606846976 64)"),
-				app("bvult", app("s_off", v), "(_ bv1152921504606846976 64)"),
+				app("bvult", app("s_cap", v), "(_ bv72057594037927936 64)"),
+				app("bvult", app("s_off", v), "(_ bv72057594037927936 64)"),
 				implies(eq(arr, "0"), and(eq(app("s_len", v), "(_ bv0 64)"), eq(app("s_cap", v), "(_ bv0 64)"))))
 		}
 		arr := app("s_arr", v)
 		return and(app("<=", "0", arr), app("<=", arr, ctr),
 			app("<=", "0", app("s_off", v)), app("<=", "0", app("s_len", v)), app("<=", app("s_len", v), app("s_cap", v)),
-			app("<=", app("s_cap", v), "1152921504606846976"),
+			app("<=", app("s_cap", v), "72057594037927936"),
 			implies(eq(arr, "0"), and(eq(app("s_len", v), "0"), eq(app("s_cap", v), "0"))))
 	case *types.Interface:
 		return and(app("<=", "0", app("i_tag", v)), implies(eq(app("i_tag", v), "0"), eq(app("i_val", v), "0")))
